@@ -982,12 +982,12 @@ func (ss *sess) doExpiry(fs []*fence, id string, p [2]float64, fields map[string
 	o := ss.objs[id]
 	deadline := time.Now().Add(15 * time.Second)
 	for {
-		r, ok := ss.do("EXISTS", ss.key, id)
-		if !ok {
+		r, err := ss.ctl.Do("EXISTS", ss.key, id)
+		if err != nil {
+			ss.infra("i/o error on EXISTS: %v", err)
 			return false
 		}
-		ss.log = ss.log[:len(ss.log)-1]
-		if r.Int == 0 {
+		if r.IsErr() || r.Int == 0 { // "key not found": the collection went away with its last object
 			break
 		}
 		if time.Now().After(deadline) {
